@@ -224,7 +224,8 @@ Definition snapshot_of (i : instance) : snapshot :=
          (map (fun p => match pc_delay (p_config p) with
                         | P2P _ => Some (match p_mean_delay p with Some md => dur_to_ti md | None => 0 end)
                         | E2E _ => None
-                        end) (i_ports i)).
+                        end) (i_ports i))
+         (map (fun p => (is_slave (p_state p), is_master (p_state p))) (i_ports i)).
 
 Inductive step_result :=
 | SROk (o : list tobs) (s : snapshot)
